@@ -92,6 +92,10 @@ def run(F, R):
     wrap_rule(F, R, 'Q11')
     # Q10: delivered events are what the device wrote: the notification-type decoding table agrees with the enum's codes
     decode_tables_rule(F, R, 'Q10', ['device::sound', 'device::input', 'device::socket'])
+    # Q14: a delivered socket event is the one the device wrote: operation codes decode to the protocol's event kinds (C18.X1)
+    if 'device::socket::vsock::VsockEvent' in F.adts:
+        from .C18 import x10_event_decoding
+        guard(R, 'Q14', 'event-decoding', lambda: x10_event_decoding(F, RuleProxy(R, {'X1': 'Q14'})))
 
 
 def q12_no_event_dropped(F, R, M):
